@@ -5,6 +5,7 @@ from .mm import RAW
 
 
 LONG_VARIANTS = 3
+LONG_N = 260  # beyond 255/256: size thresholds of 'bulk' fast paths
 LONG_PREFIXES = 3
 
 
@@ -72,11 +73,11 @@ def alt_variants(mm, t, coords):
             # LONG arrays whose deciding element comes late: 130 x the first shape, then another one
             # (hooks that sniff a prefix, quadratic shortcuts, truncation)
             for lab, sub in ev[1:LONG_VARIANTS + 1]:
-                out.append(("long130+" + lab, ("arr", [subs[0]] * 130 + [sub])))
+                out.append(("long130+" + lab, ("arr", [subs[0]] * LONG_N + [sub])))
             # ... with other prefixes too (which element is "ambiguous" depends on inner alternatives)
             for pi in range(1, min(LONG_PREFIXES, len(ev))):
                 for li in [x for x in range(min(len(ev), LONG_VARIANTS + 1)) if x != pi][:2]:
-                    out.append(("long130:%s+%s" % (ev[pi][0], ev[li][0]), ("arr", [subs[pi]] * 130 + [subs[li]])))
+                    out.append(("long130:%s+%s" % (ev[pi][0], ev[li][0]), ("arr", [subs[pi]] * LONG_N + [subs[li]])))
         return out
     if k == "or":
         for i, it in enumerate(rt["items"]):
@@ -138,7 +139,7 @@ def forced_cases(mm, root, seed, containers=(0.0, 0.6)):
                     only_j = [(lab, sub) for lab, sub in evs[aj] if not mm.valid(to_json(sub), eti)]
                     for (la, a) in both[:2]:
                         for (lb, b) in only_j[:3]:
-                            arr = ("arr", [a] * 130 + [b])
+                            arr = ("arr", [a] * LONG_N + [b])
                             if not mm.valid(to_json(arr), ort["items"][aj]) or mm.valid(to_json(arr), ort["items"][ai]):
                                 continue
                             g = TGen(mm, rng_for(seed, "xl", root.label, sidx, ai, aj, la, lb), maxdepth=2, p_opt=0.0)
@@ -178,6 +179,17 @@ def directed_cases(mm, root, seed):
     yield ("minimal", TGen(mm, rng_for(seed, root.label, "min"), maxdepth=3, p_opt=0.0).gen(root.t))
     yield ("maximal", TGen(mm, rng_for(seed, root.label, "max"), maxdepth=2, p_opt=1.0).gen(root.t))
     yield ("maximal3", TGen(mm, rng_for(seed, root.label, "max3"), maxdepth=3, p_opt=1.0, arr_lens=(1, 2)).gen(root.t))
+    if root.kind == "ERR":
+        # the JSON-RPC / LSP error-code landmarks (reserved range ends, implementation-defined band, LSP codes)
+        for code in (-32700, -32603, -32602, -32601, -32600, -32099, -32050, -32000, -32001, -32002, -32800, -32801, -32802, -32803, 0, 1, -1):
+            for popt in (0.0, 1.0):
+                t = TGen(mm, rng_for(seed, root.label, "code", code, popt), maxdepth=2, p_opt=popt).gen(root.t)
+                err = t[2]["error"]
+                kids = dict(err[2])
+                kids["code"] = ("leaf", code)
+                top = dict(t[2])
+                top["error"] = (err[0], err[1], kids)
+                yield ("code%d/%s" % (code, popt), (t[0], t[1], top))
 
 
 class DeepGen(TGen):
@@ -239,9 +251,10 @@ def recursive_structs(mm):
 def big_cases(mm, root, seed):
     """LARGE / DEEP inputs: long arrays and maps at the first level, recursion 40 levels deep."""
     # arrays / maps directly under the root (depth 1) get 130 elements; deeper ones stay empty
-    yield ("wide", TGen(mm, rng_for(seed, root.label, "wide"), maxdepth=2, p_opt=1.0, arr_lens=(130,)).gen(root.t))
+    yield ("wide", TGen(mm, rng_for(seed, root.label, "wide"), maxdepth=2, p_opt=1.0, arr_lens=(LONG_N,)).gen(root.t))
     if root.kind == "S" and root.name in recursive_structs(mm):
         yield ("deep40", DeepGen(mm, rng_for(seed, root.label, "deep"), 40).gen(root.t))
+        yield ("deep120", DeepGen(mm, rng_for(seed, root.label, "deep120"), 120).gen(root.t))
 
 
 def random_cases(mm, root, seed, n, **kw):
